@@ -1843,6 +1843,12 @@ impl SInt {
     }
 }
 
+/// the value of an integer term modulo 2^128 as a machine value (wrapping arithmetic)
+pub fn wrap_u128(t: SInt) -> X {
+    let m = SInt::big(Big::pow2(128));
+    t.mod_e(m).0
+}
+
 fn ccmp(c: Cond, a: SInt, b: SInt, f: fn(&Big, &Big) -> bool) -> Cond {
     if let (Some(x), Some(y)) = (kz(a.0), kz(b.0)) {
         return Cond::from_bool(f(&x, &y));
